@@ -25,14 +25,16 @@ pub struct GenCfg {
     /// probability (in 1/8) that a (frame, layer) slot has a cel
     pub cel_density: u64,
     pub background: bool,
+    /// occasionally draw 1xN / Nx1 / very tall or wide cels (N up to 300)
+    pub extreme_cels: bool,
 }
 
 impl GenCfg {
     pub fn small() -> GenCfg {
-        GenCfg { max_w: 24, max_h: 24, fmt: None, max_layers: 8, max_frames: 5, max_cel: 20, tilemaps: true, groups: true, links: true, attrs: true, extremes: true, blend_modes: true, cel_density: 5, background: true }
+        GenCfg { max_w: 24, max_h: 24, fmt: None, max_layers: 8, max_frames: 5, max_cel: 20, tilemaps: true, groups: true, links: true, attrs: true, extremes: true, blend_modes: true, cel_density: 5, background: true, extreme_cels: false }
     }
     pub fn tiny() -> GenCfg {
-        GenCfg { max_w: 6, max_h: 6, fmt: None, max_layers: 4, max_frames: 3, max_cel: 6, tilemaps: true, groups: true, links: true, attrs: true, extremes: false, blend_modes: true, cel_density: 5, background: true }
+        GenCfg { max_w: 6, max_h: 6, fmt: None, max_layers: 4, max_frames: 3, max_cel: 6, tilemaps: true, groups: true, links: true, attrs: true, extremes: false, blend_modes: true, cel_density: 5, background: true, extreme_cels: false }
     }
 }
 
@@ -294,8 +296,17 @@ pub fn gen_sprite(rng: &mut Rng, cfg: &GenCfg) -> (Sprite, PaletteProgram) {
             match sp.layers[l].kind {
                 LayerKind::Group => {}
                 LayerKind::Image => {
-                    let w = rng.range(1, cfg.max_cel as i64) as u16;
-                    let h = rng.range(1, cfg.max_cel as i64) as u16;
+                    let (w, h) = if cfg.extreme_cels && rng.chance(1, 12) {
+                        // extreme aspect ratios and cels much larger than the canvas
+                        match rng.below(4) {
+                            0 => (1u16, rng.range(40, 300) as u16),
+                            1 => (rng.range(40, 300) as u16, 1u16),
+                            2 => (rng.range(1, 3) as u16, rng.range(41, 120) as u16),
+                            _ => (rng.range(41, 120) as u16, rng.range(1, 3) as u16),
+                        }
+                    } else {
+                        (rng.range(1, cfg.max_cel as i64) as u16, rng.range(1, cfg.max_cel as i64) as u16)
+                    };
                     let pixels = gen_pixels(rng, &sp, w as usize * h as usize);
                     let c = CelM { x: gen_offset(rng, width, w), y: gen_offset(rng, height, h), opacity: rng.opacity(), content: CelContentM::Image { w, h, pixels }, ud: gen_opt_ud(rng, cfg) };
                     sp.cels.insert((f as u16, l as u16), c);
